@@ -387,3 +387,9 @@ impl fmt::Debug for SettingsFlags {
             .finish()
     }
 }
+
+#[cfg(feature = "verif")]
+#[allow(missing_docs, dead_code, unused_imports)]
+pub(crate) mod verif_h {
+    include!(concat!(env!("H2_VERIF_DIR"), "/harness/frame/settings.rs"));
+}
